@@ -10,7 +10,7 @@ KINDS = {
     "C05": {"callback", "linearizability"},
     "C06": {"deadlock", "livelock"},
     "C08": {"shape"},
-    "C09": {"locks", "panic"},
+    "C09": {"locks", "panic", "deadlock"},
     "C10": {"coupling"},
 }
 PROFILES = {
@@ -176,9 +176,9 @@ def _check(pid, tier, sc, t0, sink=None):
     tie_broken = []
     if proof["problems"]:
         tie_broken.append(dict(kind="proof", detail=proof["problems"]))
-    ncases, nsched = {"quick": (160, 12), "thorough": (2500, 40)}[tier]
+    ncases, nsched = {"quick": (900, 16), "thorough": (12000, 40)}[tier]
     corpus = load_corpus(pid)
-    cases = corpus + gen_cases(pid, rng, ncases, nsched)
+    cases = corpus + genconc.catalogue() + gen_cases(pid, rng, ncases, nsched)
     runs, dfs, errs = run_parallel(bindir, sc, "main", cases)
     violations, known_hits = [], {}
     for e in errs:
